@@ -47,6 +47,8 @@ class ExcClass(PyObj):
     def __init__(self, name): self.name = name
 class LambdaV(PyObj):
     def __init__(self, node, env): self.node, self.env = node, env
+class ExtMethod(PyObj):
+    def __init__(self, recv, key): self.recv, self.key = recv, key
 class SpecFn(PyObj):
     def __init__(self, name): self.name = name
 class TypeObj(PyObj):
@@ -107,6 +109,9 @@ class World:
         self.rec_src = {}      # rec type name -> (rel, classname)
         self.class_src = {}    # ref class name -> (rel, classname)
         self.trusted = []      # free-text trusted-base entries
+        self.ufunc_facts = {}
+        self.ext_methods = {}       # 'Cls.method' -> Contract-like dict for code outside reach (assumed; listed)
+        self.partial_types = {}     # function name -> record type modelling functools.partial(f, **kw) objects
         self.definitional = set()   # macro names that are defining equations of ufuncs (may be instantiated as lemmas)
         self.opaque = {}       # dotted callee name -> ret type string (uninterpreted pure function of its args; assumption)
 
@@ -143,7 +148,10 @@ class World:
     def define(self, sig, expr):
         m = re.match(r'\s*(\w+)\s*\((.*)\)\s*$', sig)
         self.defs[m.group(1)] = ([p.strip() for p in m.group(2).split(',') if p.strip()], expr)
-    def ufunc(self, name, args, ret): self.ufuncs[name] = (list(args), ret)
+    def ufunc(self, name, args, ret, facts=()):
+        """uninterpreted spec function; `facts` are instances of its defining axioms assumed whenever a term
+        name(a0, a1, ..) is created (ground instantiation instead of a quantified axiom)"""
+        self.ufuncs[name] = (list(args), ret); self.ufunc_facts[name] = list(facts)
     def contract(self, rel, qual, **kw):
         c = Contract(rel, qual, **kw); self.contracts[c.key] = c; return c
 
@@ -200,7 +208,7 @@ class Obligation:
 _hq_cache = {}
 def has_quant(f):
     k = f.get_id()
-    if k in _hq_cache: return _hq_cache[k]
+    if k in _hq_cache: return _hq_cache[k][1]
     seen = set(); stack = [f]; r = False
     while stack:
         t = stack.pop()
@@ -209,7 +217,7 @@ def has_quant(f):
         seen.add(i)
         if z3.is_quantifier(t): r = True; break
         stack.extend(t.children())
-    _hq_cache[k] = r
+    _hq_cache[k] = (f, r)      # pin the AST so that its id cannot be reused
     return r
 
 # ------------------------------------------------------------------ state
@@ -447,7 +455,7 @@ class Exec:
     def e_Dict(self, n):
         if any(k is None for k in n.keys): raise Unsupported('dict unpacking')
         ks = [self.val(self.eval(k)) for k in n.keys]; vs = [self.val(self.eval(v)) for v in n.values]
-        if not ks: raise Unsupported('empty dict literal needs a declared type')
+        if not ks: return V(TTuple([]), [])     # empty, typed on assignment via var_types / first store
         kty = T._join_all([k.ty for k in ks]); vty = T._join_all([v.ty for v in vs])
         dom = empty_set_term(kty); val = z3.K(sort_of(kty), pack(default_value(vty)))
         for k, v in zip(ks, vs):
@@ -461,7 +469,10 @@ class Exec:
         for p in n.values:
             if isinstance(p, ast.Constant): parts.append(vstr(p.value))
             else:
-                v = self.val(self.eval(p.value))
+                try: v = self.val(self.eval(p.value))
+                except Unsupported:
+                    self.vf.note_assumption('f-string operand outside the subset treated as an arbitrary string (message text only)')
+                    parts.append(V(TStr, fresh('fmt', z3.StringSort()))); continue
                 if p.format_spec is not None or p.conversion not in (-1, 115):
                     v = V(TStr, fresh('fmt', z3.StringSort()))   # opaque formatted text
                     self.vf.note_assumption('f-string with format spec/conversion treated as an arbitrary string')
@@ -597,6 +608,9 @@ class Exec:
         v = self.eval(n.value); self.assign(n.target, v); return v
 
     def e_Lambda(self, n): return LambdaV(n, dict(self.st.env))
+    def e_Await(self, n):
+        # cooperative scheduling: awaiting a coroutine with a contract is a call; environment awaitables are handled by their contracts
+        return self.eval(n.value)
 
     def e_Compare(self, n):
         left = self.eval(n.left); res = None
@@ -825,6 +839,8 @@ class Exec:
         if isinstance(ty, TRef):
             fields = self.w.classes.get(ty.cls, {})
             if attr in fields: return self.heap_read(obj, attr, self.w.ty(fields[attr]))
+        if isinstance(ty, TRef) and (ty.cls + '.' + attr) in self.w.ext_methods:
+            return ExtMethod(obj, ty.cls + '.' + attr)
         if isinstance(ty, (TRec, TEnum, TRef)):
             src = self.class_of_type(ty)
             if src:
@@ -1011,14 +1027,17 @@ class Exec:
             else: args.append(self.eval(a))
         kwargs = {}
         for k in n.keywords:
-            if k.arg is None: raise Unsupported('**kwargs call')
-            kwargs[k.arg] = self.eval(k.value)
+            if k.arg is None: kwargs['**'] = self.eval(k.value)
+            else: kwargs[k.arg] = self.eval(k.value)
         return self.call(f, args, kwargs, n)
 
     def call(self, f, args, kwargs, node):
         if isinstance(f, BuiltinRef): return call_builtin(self, f.name, args, kwargs, node)
         if isinstance(f, SpecFn): return call_spec(self, f.name, args, kwargs, node)
-        if any(isinstance(a, tuple) for a in args): raise Unsupported('star-args call to repo function')
+        if isinstance(f, ExtMethod): return self.ext_call(f, args, kwargs, node)
+        if any(isinstance(a, tuple) for a in args):
+            if isinstance(f, (FuncRef, BoundMethod)): return self.star_call(f, args, kwargs, node)
+            raise Unsupported('star-args call to %s' % type(f).__name__)
         if isinstance(f, BoundBuiltin): return call_method_builtin(self, f, args, kwargs, node)
         if isinstance(f, FuncRef): return self.call_func(f, args, kwargs, node)
         if isinstance(f, BoundMethod):
@@ -1101,9 +1120,14 @@ class Exec:
         bound = {}
         if len(args) > len(names) and not a.vararg: raise Unsupported('too many positional args for %s' % fnode.name)
         for nme, v in zip(names, args): bound[nme] = v
+        kwargs = dict(kwargs)
         if a.vararg:
-            extra = args[len(names):]
-            bound[a.vararg.arg] = V(TTuple([self.val(x).ty for x in extra]), [self.val(x) for x in extra])
+            if '__vararg__' in kwargs: bound[a.vararg.arg] = kwargs.pop('__vararg__')
+            else:
+                extra = args[len(names):]
+                bound[a.vararg.arg] = V(TTuple([self.val(x).ty for x in extra]), [self.val(x) for x in extra])
+        starkw = kwargs.pop('**', None)
+        if a.kwarg: bound[a.kwarg.arg] = starkw if starkw is not None else V(TTuple([]), [])
         defaults = dict(zip(names[len(names) - len(a.defaults):], a.defaults))
         for p, d in zip(a.kwonlyargs, a.kw_defaults):
             names.append(p.arg)
@@ -1113,6 +1137,8 @@ class Exec:
                 if a.kwarg: continue
                 raise Unsupported('unexpected keyword %s for %s' % (k, fnode.name))
             bound[k] = v
+        if a.vararg: names.append(a.vararg.arg)
+        if a.kwarg: names.append(a.kwarg.arg)
         for nme in names:
             if nme not in bound:
                 if nme in defaults: bound[nme] = ('default', defaults[nme])
@@ -1262,6 +1288,80 @@ class Exec:
             self.assume(self.eval_spec(e, env=env2, old=pre, rel=fr.rel))
         raise RaiseSig(exc)
 
+    def ext_call(self, f, args, kwargs, node):
+        """call of a method that lives outside the verified code base (Cython, other process, callback):
+        only its declared contract is known.  Its `requires` are proof obligations at this call site."""
+        c = self.w.ext_methods[f.key]
+        pnames = list(c['params'])
+        pos = [a for a in args if not isinstance(a, tuple)]
+        vals = {}
+        for nme, a in zip(pnames, pos): vals[nme] = self.co(a, self.w.ty(c['params'][nme]))
+        for k, a in kwargs.items():
+            if k in c['params']: vals[k] = self.co(a, self.w.ty(c['params'][k]))
+        for nme in pnames:
+            if nme not in vals: raise Unsupported('ext call %s: missing argument %s' % (f.key, nme))
+        ordinal = self.call_counts.get(f.key, 0); self.call_counts[f.key] = ordinal + 1
+        site = '%s@%s#%d' % (f.key, self.frame_name(), ordinal)
+        env = dict(vals); env['self'] = f.recv
+        me = self.frame.get('contract')
+        for g, gty in c.get('ghost', {}).items():
+            if g in self.st.env: env[g] = coerce(self.val(self.st.env[g]), self.w.ty(gty))
+            else: raise Unsupported('no ghost argument %s for ext call %s' % (g, site))
+        for s_ in c.get('state', []):
+            if s_ in self.st.env: env[s_] = self.st.env[s_]
+        for i, r in enumerate(c.get('requires', [])):
+            fml = self.eval_spec(r, env=env)
+            self.prove(fml, '%s/pre@%s#%d' % (self.vf.cur.qual, site, i), 'pre@callsite', r, c.get('tag', 'property'))
+        outcomes = ['normal'] + list(c.get('raises', {}))
+        k = self.choose(len(outcomes)) if len(outcomes) > 1 else 0
+        pre = self.st.copy(); pre.env = dict(env)
+        facts = []
+        for mname in c.get('modifies', []):
+            if mname in self.st.env and isinstance(self.st.env[mname], V):
+                self.st.env[mname] = havoc(self.st.env[mname].ty, mname, facts); env[mname] = self.st.env[mname]
+            elif '.' in mname:
+                cls, fld = mname.split('.'); fty = self.w.ty(self.w.classes[cls][fld]); self.heap_field(cls, fld, fty)
+                self.st.heap[mname] = fresh('heap_' + cls + '_' + fld, z3.ArraySort(sort_of(TRef(cls)), sort_of(fty)))
+        if k == 0:
+            res = havoc(self.w.ty(c.get('returns', 'none')), 'ret_' + f.key.replace('.', '_'), facts)
+            for fct in facts: self.assume(fct)
+            env2 = dict(env); env2['result'] = res
+            for e in c.get('ensures', []): self.assume(self.eval_spec(e, env=env2, old=pre))
+            return res
+        for fct in facts: self.assume(fct)
+        ecls = outcomes[k]
+        env2 = dict(env); exc = ExcV(ecls); env2['exc'] = V(TExc, exc)
+        for e in c['raises'][ecls].get('ensures', []): self.assume(self.eval_spec(e, env=env2, old=pre))
+        raise RaiseSig(exc)
+
+    def star_call(self, f, args, kwargs, node):
+        """f(*seq, more..., kw=..): positional arguments given (partly) by symbolic sequences"""
+        fr = f.func if isinstance(f, BoundMethod) else f
+        pre = [f.recv] if isinstance(f, BoundMethod) else []
+        a = fr.node.args
+        fixed = [p.arg for p in a.posonlyargs + a.args][len(pre):]
+        # concatenate all positionals into one sequence
+        seq = None; items = []
+        for x in args:
+            if isinstance(x, tuple):
+                sv = self.iter_of(x[1]); sv = self.materialize(sv) if isinstance(sv, IterV) else sv
+                if items:
+                    lit = seq_literal(items, T._join_all([i.ty for i in items] + [sv.ty.elem])); items = []
+                    seq = lit if seq is None else self.seq_concat(seq, lit)
+                seq = sv if seq is None else self.seq_concat(seq, sv)
+            else: items.append(self.val(x))
+        if items:
+            lit = seq_literal(items, T._join_all([i.ty for i in items] + ([seq.ty.elem] if seq is not None else [])))
+            seq = lit if seq is None else self.seq_concat(seq, lit)
+        if self.branch(seq.t[0] < len(fixed), exceptional=True): self.raise_exc('TypeError')
+        pos = [seq_get(seq, z3.IntVal(i)) for i in range(len(fixed))]
+        if not a.vararg:
+            raise Unsupported('star-args call to a function without *args')
+        i = fresh('si', z3.IntSort())
+        rest = V(seq.ty, (seq.t[0] - len(fixed), z3.Lambda([i], seq.t[1][i + len(fixed)])))
+        kwargs = dict(kwargs); kwargs['__vararg__'] = rest
+        return self.call_func(fr, pre + pos, kwargs, node)
+
     def write_back(self, fr, pname, names, node, recv_node, nv):
         idx = names.index(pname)
         if recv_node is not None:
@@ -1315,6 +1415,7 @@ class Exec:
         if isinstance(e, V) and e.ty is TExc: e = e.t
         if not isinstance(e, ExcV): raise Unsupported('raise of non-exception')
         raise RaiseSig(e)
+    def s_AsyncFunctionDef(self, st): self.s_FunctionDef(st)
     def s_FunctionDef(self, st):
         self.frame.setdefault('local_funcs', {})[st.name] = FuncRef(self.frame['rel'], self.vf.qual_of_nested(self.frame, st), st)
     def s_AnnAssign(self, st):
